@@ -129,12 +129,17 @@ def rule_permutation(ctx):
                     I = idxcall[2][1]
                     # form (b): (self.index read after the increment) - 1
                     sub = I[0] == "bin" and I[1].startswith("Sub") and self_field(I[2], "index") and I[3] == ("const", 1, "usize")
+                    # where the element is actually read: the Index call on scored_moves with this index, outside the scan
+                    reads = [cbi for cbi, ct in b.calls() if ct.get("callee", "").endswith("::index") and len(ct["args"]) == 2 and not b.in_loop(cbi)
+                             and self_field(mir.strip_refs(sym.operand(ct["args"][0])), "scored_moves") and sym.operand(ct["args"][1]) == I]
+                    swaps = [sbi for sbi, st_ in b.calls() if (st_.get("callee") or "").endswith("::swap")]
+                    after_swap = [r for r in reads if swaps and all(b.dominates(sw, r) for sw in swaps)]
                     if sub:
                         # the read of self.index feeding the subtraction must come after the increment
-                        okr = read_after(b, somes[0], ib)
+                        okr = any(b.dominates(ib, r) for r in after_swap) if after_swap else read_after(b, somes[0], ib)
                     elif self_field(I, "index"):
-                        okr = False  # would need the read to precede the increment: check by position
-                        okr = not read_after(b, somes[0], ib)
+                        # the read must precede the increment (and follow the swap): `let best = v[index].ply; index += 1; Some(best)`
+                        okr = any(r != ib and r not in b.reachable_from(ib) and b.dominates(r, ib) for r in after_swap) if after_swap else not read_after(b, somes[0], ib)
         ctx.check(okr, "next:returns-slot-at-old-index", "the returned move is scored_moves[index_before_increment].ply (the slot the best move was just swapped into)", b.where(somes[0]),
                   bad_what="the returned element is `%s`, not the slot the selected move was swapped into" % detail)
     # (5) construction is 1:1 and starts at 0
